@@ -91,6 +91,7 @@ def gen_cfg(prop, rng, tier, kind=None):
     if rng.random() < 0.2:
         prof["cancel"] = 0.0   # fault-free configuration (oracles must hold there without relaxation)
     knobs = {"kind": kind, "cfg": cfg, "K": K, "nops": nops, "prios": prios, "lattice": lat_name, "prof": prof,
+             "prelude": prop in ("C01", "C02", "C05", "C06", "C07") and rng.random() < 0.25,
              "mixed_items": prop in ("C01", "C02", "C04", "C06", "C05") and rng.random() < 0.25,
              "filters": rng.random() < 0.6, "drain": prop in ("C02", "C04", "C01", "C06") and rng.random() < 0.4}
     return knobs
@@ -106,12 +107,60 @@ class GenA:
         self.lat = LATTICES[knobs["lattice"]]
         self.count = 0
         self.last = None
+        self.pre = {"phase": "fill", "put": 0, "target": rng.choice([2, 2, 3]), "steps": 0, "rg": 0} if knobs.get("prelude") else None
 
     def name(self, p):
         self.n += 1
         return f"{p}{self.n}"
 
+    def prelude(self, h):
+        """Scripted opening of some runs: a few items inside and available, then two retrieval reservations granted one after the
+        other with DESCENDING priority value and both outstanding - the state in which parallel bookkeeping lists get out of step.
+        The random ops follow."""
+        rng = self.rng
+        st = self.pre
+        st["steps"] += 1
+        if st["steps"] > 40 or h.kind == "prs":
+            self.pre = None
+            return None
+        toks = list(h.toks.values())
+        gp = [t for t in toks if t.kind == "p" and t.state == "granted"]
+        pp = [t for t in toks if t.kind == "p" and t.state == "pending"]
+        if st["phase"] == "fill":
+            if st["put"] >= st["target"]:
+                st["phase"] = "wait"
+            elif gp:
+                st["put"] += 1
+                d = rng.choice(self.lat) if h.ad.timed == "delay" else 0
+                return ["put", gp[0].c, gp[0].name, self.name("i"), d, 0]
+            elif not pp:
+                return ["rp", 0, 0, self.name("p")]
+        if st["phase"] in ("fill", "wait"):
+            if st["phase"] == "wait" and len(h.bind.order) >= min(2, st["target"]):
+                st["phase"] = "reserve"
+            else:
+                nxt = h.env.peek()
+                if nxt <= h.env.now:
+                    return ["adv", 0, "after"]
+                if nxt == INF:
+                    self.pre = None
+                    return None
+                return ["adv", nxt - h.env.now, "after"] if h.env.now + (nxt - h.env.now) == nxt else ["adv", max(self.lat), "after"]
+        if st["phase"] == "reserve":
+            pr = sorted(set(self.k["prios"]), reverse=True)
+            i = st["rg"]
+            st["rg"] += 1
+            if i >= 2:
+                self.pre = None
+                return None
+            return ["rg", (1 + i) % h.K, pr[min(i, len(pr) - 1)], None, self.name("g")]
+        return None
+
     def __call__(self, h):
+        if self.pre is not None:
+            op = self.prelude(h)
+            if op is not None:
+                return op
         if self.count >= self.k["nops"]:
             return self.drain(h) if self.k.get("drain") else None
         self.count += 1
